@@ -23,6 +23,16 @@ def handle (j : Json) : Except String Json := do
     let (st, coll) := runFrom cfg Stats.init hits
     pure (Json.mkObj [("collected", ints coll), ("count", toJson st.count), ("last", toJson st.last),
                       ("fire_count", toJson cfg.count), ("fire_period", toJson cfg.period)])
+  | "runSeg" =>
+    -- the tracepoint is re-sent in later UPDATE responses: one segment of hits per installation
+    let segs ← (← getArr j "segs").toList.mapM (fun sj => do
+      match sj with
+      | Json.arr a => a.toList.mapM (fun h => do
+          let ts ← getInt h "ts"
+          let c ← getBool h "cond"
+          pure (Hit.mk ts c))
+      | _ => throw "segment is not an array")
+    pure (Json.mkObj [("collected", ints (runSegments cfg segs))])
   | "runN" =>
     -- several actions at one location, each with its own configuration and statistics
     let cfgs ← (← getArr j "cfgs").toList.mapM parseCfg
